@@ -2112,6 +2112,43 @@ fn main() {
             }
             println!("level0_files_after={}", db.num_level_zero_files_for_verif());
         }
+        // parked_writer_flush_fails : the active memtable is full while the previous one still waits for its flush, so a writer parks
+        // in make_room_for_write; the flush then fails (table files cannot be created). The failed state is recorded and every
+        // waiter is woken: the parked writer has to return (with the error) within 15 s
+        "parked_writer_flush_fails" => {
+            use raindb::WriteOptions;
+            let fs = rdbv::faultfs::FaultFs::new();
+            let mut o = raindb::DbOptions::with_memory_env();
+            o.filesystem_provider = std::sync::Arc::new(fs.clone());
+            o.db_path = "db".to_string();
+            o.create_if_missing = true;
+            o.max_memtable_size = 64 * 1024;
+            let db = std::sync::Arc::new(raindb::DB::open(o).expect("open"));
+            db.hold_background_for_verif(true);
+            db.put(WriteOptions::default(), b"m".to_vec(), vec![7u8; 80 * 1024]).unwrap();
+            db.put(WriteOptions::default(), b"n".to_vec(), vec![8u8; 80 * 1024]).unwrap();
+            println!("immutable_pending={}", db.has_immutable_memtable_for_verif());
+            fs.arm(".rdb", 1, true);
+            let (tx, rx) = std::sync::mpsc::channel();
+            let db2 = std::sync::Arc::clone(&db);
+            std::thread::spawn(move || {
+                let r = db2.put(WriteOptions::default(), b"q".to_vec(), b"late".to_vec());
+                let _ = tx.send(r.is_ok());
+            });
+            std::thread::sleep(std::time::Duration::from_millis(500));
+            println!("parked={}", rx.try_recv().is_err());
+            db.hold_background_for_verif(false);
+            println!("scheduled={}", db.schedule_compaction_for_verif());
+            match rx.recv_timeout(std::time::Duration::from_secs(15)) {
+                Ok(ok) => println!("writer={}", if ok { "released" } else { "error" }),
+                Err(_) => {
+                    println!("writer=stuck");
+                    println!("fault_hit={}", fs.failures() > 0);
+                    std::process::exit(0);
+                }
+            }
+            println!("fault_hit={}", fs.failures() > 0);
+        }
         // manual_request_during_compaction : a size-triggered level-0 compaction is writing its output when another thread
         // requests a manual compaction. Does the requester return, and does the background thread survive?
         "manual_request_during_compaction" => {
